@@ -2264,7 +2264,9 @@ impl SctpInner {
         }
 
         let old_cumulative_tsn = self.cumulative_tsn_ack.load(Ordering::SeqCst);
-        if new_cumulative_tsn > old_cumulative_tsn {
+        // TSNs are serial numbers (RFC 1982): compare modulo 2^32 so that a FORWARD TSN
+        // that crosses the wrap is honoured and a stale one from before it is not.
+        if tsn_gt(new_cumulative_tsn, old_cumulative_tsn) {
             debug!(
                 "FORWARD TSN: moving cumulative ack from {} to {}",
                 old_cumulative_tsn, new_cumulative_tsn
@@ -2274,7 +2276,7 @@ impl SctpInner {
 
             {
                 let mut received_queue = self.received_queue.lock();
-                received_queue.retain(|&tsn, _| tsn > new_cumulative_tsn);
+                received_queue.retain(|&tsn, _| tsn_gt(tsn, new_cumulative_tsn));
             }
 
             // Advance SSNs for ordered streams
